@@ -28,7 +28,7 @@ impl Tdh {
 
 // message text is dropped by the extraction (rule: message expressions -> msg())
 #[verifier::external_body]
-fn msg() -> String { String::new() }
+fn opaque_msg() -> String { String::new() }
 
 pub open spec fn b2i(b: bool) -> int { if b { 1 } else { 0 } }
 
